@@ -7,7 +7,8 @@ machine : state = dispatcher counter of the group + the multiset of in-flight
           frames go through the bus model and stay in flight, PASS frames
           leave to user space), lose one, inject a fresh sterile frame,
           deliver a foreign frame (other ethertype, EtherCAT without
-          identification datagram, group number >= 64, short frames),
+          identification datagram, group number >= 64 - also one that agrees
+          with a registered group in its low bits -, short frames),
           register / unregister the group program.
 invariants: action in {TX, PASS}; foreign frames PASS byte-identical; a frame
           of an unregistered group that reaches user space carries the
@@ -94,7 +95,7 @@ def enumerate_cases(tier):
 
 
 FOREIGN = ["ip", "ethercat-no-id", "group64", "short", "short-ethercat",
-           "group-other"]
+           "group-other", "group-high"]
 
 
 def check_pass(world, before, res, registered, wkc_before, facts):
@@ -226,6 +227,11 @@ def run_case(case, only_c21=False):
                 elif kind == "group-other":
                     struct.pack_into("<I", fr, 18, (world.group_no + 1) % 64)
                     judged_identical = False
+                elif kind == "group-high":
+                    # a group number that only agrees with ours in its low bits
+                    struct.pack_into("<I", fr, 18, world.group_no
+                                     + (0x10000 << (k % 3) * 4) * (1 + k % 2))
+                    judged_identical = False
                 elif kind == "short":
                     fr = fr[:20]
                     fr[12:14] = b"\x08\x06"
@@ -248,6 +254,34 @@ def run_case(case, only_c21=False):
                     if bytes(world.gstate) != gs or bytes(world.dstate) != ds:
                         return fail(f"foreign frame ({kind}) changed the "
                                     f"maps")
+                if kind in ("group64", "group-high"):
+                    # a group that cannot have a program: the frame must reach
+                    # user space, with the ethertype of its identification
+                    # datagram, after at most two more rounds
+                    rounds = 0
+                    cur = res
+                    while cur["retval"] == dispatch.TX and rounds < 3:
+                        rounds += 1
+                        cur = world.deliver(world.bus_pass(cur["frame"],
+                                                           set()))
+                        if "fault" in cur:
+                            return fail(f"foreign frame ({kind}): "
+                                        f"{cur['fault']}")
+                    if cur["retval"] != dispatch.PASS:
+                        return fail(f"a frame of group "
+                                    f"{struct.unpack_from('<I', fr, 18)[0]:#x}"
+                                    f" (no program can be registered for it) "
+                                    f"was returned to the bus {rounds + 1} "
+                                    f"times in a row instead of reaching user "
+                                    f"space")
+                    if cur["frame"][12:14] != struct.pack("!H",
+                                                          world.ethertype):
+                        return fail(f"foreign frame ({kind}) reached user "
+                                    f"space with ethertype "
+                                    f"{cur['frame'][12:14].hex()}")
+                    world.dstate[:] = ds
+                    world.gstate[:] = gs
+                    world.wkc_errors = wk
                 if kind == "group-other":
                     world.dstate[:] = ds    # another group's counter
             else:   # deliver
